@@ -118,6 +118,14 @@ claim("C06",
       "Relative to DartSem (enum conversions only); generated Dart is never executed or analysed (no SDK offline). Trusted: the regex reader of the Dart files. The linker's file assignment is checked only through the link conditions.",
       "Coq proof (enum conversion lemmas, key lemma via C09) + parsed-table correspondence + link resolution evaluated in Coq", "DESIGN.md §5 C06")
 
+claim("C02",
+      "Decided dynamically on every run: a test binary is built from the source package + the real generated wrappers (after goimports); for every analysed type, random values (nil/empty/non-empty containers, zero values, unicode and HTML-sensitive strings, every union member) "
+      "are marshalled and unmarshalled with the real encoding/json and compared (deep equality modulo nil/empty), and the bytes are compared with a reflection-driven reference encoder that knows the unions from a registry only. "
+      "In Coq the wire format is the shape of the documents of each type (Sem/GoJson.v, computed from the analysis); lemmas state what conformance means at union positions ({Kind: member, Data: member document}, exactly two keys) and struct positions (exact key set); "
+      "every document written by the real encoder is checked by vm_compute to conform to the shape of its type.",
+      "Partial: the round trip itself is observed, not proved (Go values and encoding/json's decoder are not modelled); the Coq part fixes the wire format and validates it against the real encoder. Trusted: the reflection driver (harness/testbin/driver.go.txt) incl. its reference encoder.",
+      "real round trips in a compiled test binary + reference encoder; Coq shape conformance of every real document", "DESIGN.md §5 C02")
+
 NOT_YET = "check not built yet in this round (planned, see DESIGN.md §6)"
 
 checks, na = [], []
